@@ -132,6 +132,88 @@ FX = ["transfer_position_out", "transfer_position_in", "_record_action", "_check
       "get_market_balance", "set_default_key"]
 
 
+def deribit_memo_rule(model, res):
+    """R-CACHE instance for the option market's valuation memo.  get_market_balance returns a memo field that holds the
+    last open-bar option valuation; on closed bars (no order book) the premium part of the memo is the only record of
+    what the options are worth.  Typestate: once filled on an open bar the memo may be rewritten only (a) by
+    get_market_balance itself, (b) by a store whose value is derived from the previous memo (a refresh), or (c) in code
+    that can only run on open bars (operations gated by write_func, the settlement under update's open-bar guard), where
+    the next valuation recomputes it anyway.  Any other store - e.g. a reset in a cash primitive reachable from the
+    ungated deposit/withdraw, or in set_market_status - loses the option valuation on closed bars."""
+    import ast as _ast
+    cls = model.cls("DeribitOptionMarket")
+    gmb = cls.methods.get("get_market_balance")
+    if gmb is None:
+        from ..model import AnalysisError
+        raise AnalysisError("C01: DeribitOptionMarket.get_market_balance not found")
+
+    def self_attr(n):
+        return n.attr if isinstance(n, _ast.Attribute) and isinstance(n.value, _ast.Name) and n.value.id == "self" else None
+
+    def stores(fn):
+        out = []
+        for n in _ast.walk(fn.node):
+            tg = []
+            if isinstance(n, _ast.Assign):
+                tg = [(t, n.value) for t in n.targets]
+            elif isinstance(n, (_ast.AugAssign, _ast.AnnAssign)):
+                tg = [(n.target, n.value)]
+            elif isinstance(n, _ast.Delete):
+                tg = [(t, None) for t in n.targets]
+            for t, v in tg:
+                for e in (t.elts if isinstance(t, (_ast.Tuple, _ast.List)) else [t]):
+                    a = self_attr(e)
+                    if a:
+                        out.append((a, n, v))
+            if isinstance(n, _ast.Call) and isinstance(n.func, _ast.Name) and n.func.id == "setattr" and len(n.args) >= 2 \
+                    and isinstance(n.args[0], _ast.Name) and n.args[0].id == "self" and isinstance(n.args[1], _ast.Constant):
+                out.append((n.args[1].value, n, n.args[2] if len(n.args) > 2 else None))
+        return out
+
+    returned = {self_attr(n.value) for n in _ast.walk(gmb.node) if isinstance(n, _ast.Return) and n.value is not None} - {None}
+    memo = {a for a, _, _ in stores(gmb)} & returned
+    if not memo:
+        res.notes.append("DeribitOptionMarket.get_market_balance keeps no memo (nothing to check for the closed-bar valuation)")
+        return 0
+    # intra-class call graph (self.m(...) calls), over the class and its bases in the repository
+    meths = {}
+    for k in reversed(model.mro(cls)):
+        meths.update(k.methods)
+    calls = {nm: {self_attr(c.func) for c in _ast.walk(f.node) if isinstance(c, _ast.Call)} - {None} for nm, f in meths.items()}
+    n = 0
+    for nm, f in sorted(meths.items()):
+        if nm in ("__init__", "get_market_balance"):
+            continue
+        for fld, node, val in stores(f):
+            if fld not in memo:
+                continue
+            if val is not None and any(self_attr(x) == fld for x in _ast.walk(val)):
+                continue        # refresh derived from the previous memo
+            # entry points (public operations and the per-bar hooks) from which this store is reachable
+            reach = {nm}
+            changed = True
+            while changed:
+                changed = False
+                for c, callees in calls.items():
+                    if c not in reach and callees & reach:
+                        reach.add(c)
+                        changed = True
+            entries = sorted(e for e in reach if not e.startswith("_") or e in ("__init__",))
+            entries = [e for e in entries if e != "__init__"]
+            open_only = [e for e in entries if "write_func" in meths[e].decorators or e in ("update", "check_option_exercise")]
+            bad = [e for e in entries if e not in open_only]
+            n += 1
+            ok = not bad
+            res.ob("R-CACHE", f"store to the valuation memo `{fld}` in {nm} runs on open bars only (entries: {entries})", f.loc(node), ok=ok,
+                   detail="" if ok else f"reachable from {bad} on closed bars")
+            if not ok:
+                res.find("R-CACHE", f"DeribitOptionMarket.{nm}", f"self.{fld} = {_ast.unparse(val) if val is not None else 'del'}", f.loc(node),
+                         f"`{_ast.unparse(node)[:80]}` in {nm} overwrites the valuation memo and is reachable from {bad}, which can run on "
+                         f"closed bars (not gated by write_func): get_market_balance then has no option valuation left and reports cash "
+                         f"only although options are held")
+    return n
+
+
 def run(model, tier="quick"):
     res = Result("C01", EXPLANATION)
     res.rules = ["R-FORMULA", "R-TOKEN", "R-COVER", "R-PAIR-XFER", "R-CACHE"]
@@ -169,6 +251,7 @@ def run(model, tier="quick"):
                   opaque=["get_twap_price", "get_norm_factor", "get_position_amount"])
     effects_check(res, model, "SqueethMarket._get_reduce_debt_result_in_vault", REF_REDUCE_IN_VAULT,
                   "redeeming the LP clears the vault's LP id together with absorbing its amounts", WALLET, opaque=OPQ)
+    res.units["deribit_memo_stores_outside_valuation"] = deribit_memo_rule(model, res)
     # a stale memo makes the reported value differ from the bar's valuation: Aave's caches are covered by the typestate rule
     from ..rules.cache import run_cache
     n_writers, caches = run_cache(model, res, "AaveV3Market", "C01")
